@@ -100,6 +100,7 @@ class Mon:
         self.ns_over: dict[str, Any] | None = None  # assign accepted although own size > limit
         self.ns_early: dict[str, Any] | None = None  # error raised although own size <= limit
         self.ns_raised = 0
+        self.assign_depths: set[int] = set()  # copy depths of the contexts that were assigned to
         self.copy_snap: dict[int, tuple[Any, int]] = {}  # child context -> size of the parent chain when copied
 
     # ---------------------------------------------------------------- node trace
@@ -293,6 +294,7 @@ class Mon:
     # ---------------------------------------------------------------- namespace
     def on_assign(self, ctx: Any, raised: bool) -> None:
         self.assigns += 1
+        self.assign_depths.add(_ctx_depth(ctx))
         sz = own_size(ctx)
         L = self.limits.get("ns")
         if raised:
